@@ -260,7 +260,7 @@ pub fn property() -> Property {
     checks.extend(regime::checks());
     Property {
         id: "C08",
-        rule: "planes generated as centre +- half-width (centre 0 in ~15% of cases, otherwise off-centre by up to 7 half-widths; orthographic planes also reversed and with negative depth values), near/far positive with far/near in (1, 61] (frustum: also far < near); fields of view as registered angles in (0, pi), rational aspect and viewport sizes; non-trivial = off-centre in x and y, near != 1, far/near not a power of two (perspective: aspect != 1); distinct = distinct consumed tape prefix. regime-* checks: each axis (x planes, y planes, depth planes) is an interval from {ordinary, width << offset (conditioning up to 2^10 f32 / 2^38 f64), off-centre by 2^-1..2^-(mantissa+2) of the width, one plane at 0, centred} x {reversed}, then scaled exactly by 2^k: k = 0 for all axes (1/8), one k for all lengths (1/2) or one k per axis (3/8; narrow / wide frusta), |k| stratified up to 96 (f32) / 960 (f64) / 56 (Rat) for the orthographic family and 45 / 450 / 20 where far*near is formed; frustum / perspective depth from {ordinary, far/near - 1 down to 2^-9 / 2^-37, far/near up to 2^20 / 2^50, far < near (frustum)}; fields of view from {uniform in (0.05, pi-0.05), log-uniform 2^-3 .. 2^-40 (f32) / 2^-300 (f64) rad, pi - 2^-j, round numbers of degrees 0.001 .. 179.9}, aspect 2^+-20 / 2^+-50, viewport sizes 2^+-40 / 2^+-100; non-trivial = off-centre in x and y (ortho: near != 0; perspective: aspect != 1)",
+        rule: "planes generated as centre +- half-width (centre 0 in ~15% of cases, otherwise off-centre by up to 7 half-widths; orthographic planes also reversed and with negative depth values), near/far positive with far/near in (1, 61] (frustum: also far < near); fields of view as registered angles in (0, pi), rational aspect and viewport sizes; non-trivial = off-centre in x and y, near != 1, far/near not a power of two (perspective: aspect != 1); distinct = distinct consumed tape prefix. regime-* checks: each axis (x planes, y planes, depth planes) is an interval from {ordinary, width << offset (conditioning up to 2^10 f32 / 2^38 f64), off-centre by 2^-1..2^-(mantissa+2) of the width (Rat: 2^-42), one plane at 0, centred} x {reversed}, then scaled exactly by 2^k: k = 0 for all axes (1/8), one k for all lengths (1/2) or one k per axis (3/8; narrow / wide frusta), |k| stratified up to 96 (f32) / 960 (f64) / 56 (Rat) for the orthographic family and 45 / 450 / 20 where far*near is formed; frustum / perspective depth from {ordinary, far/near - 1 down to 2^-9 / 2^-37, far/near up to 2^20 / 2^50, far < near (frustum)}; fields of view from {uniform in (0.05, pi-0.05), log-uniform 2^-3 .. 2^-40 (f32) / 2^-300 (f64) rad, pi - 2^-j, round numbers of degrees 0.001 .. 179.9}, aspect 2^+-20 / 2^+-50, viewport sizes 2^+-40 / 2^+-100; non-trivial = off-centre in x and y (ortho: near != 0; perspective: aspect != 1)",
         assumptions: &[
             "rustc and the proptest runner/shrinker are trusted",
             "oracle: validity predicate on the images of the eight corners after the homogeneous divide (reference matrix*vector on plain arrays), plus entry-wise relations between constructors",
